@@ -673,6 +673,23 @@ Proof.
   - rewrite Hr. eexists; reflexivity.
 Qed.
 
+(* list(dict.fromkeys(l)): every state of l exactly once *)
+Lemma st_dedupe_in l x : In x (st_dedupe l) <-> In x l.
+Proof.
+  induction l as [|a l IH]; simpl; [tauto|]. rewrite filter_In, IH. split.
+  - intros [->|[H _]]; [left; reflexivity|right; exact H].
+  - intros [->|H]; [left; reflexivity|].
+    destruct (st_eqb a x) eqn:E; [left; apply st_eqb_eq; exact E|right; split; [exact H|reflexivity]].
+Qed.
+
+Lemma st_dedupe_nodup l : NoDup (st_dedupe l).
+Proof.
+  induction l as [|a l IH]; simpl; constructor.
+  - intros H. apply filter_In in H. destruct H as [_ H].
+    assert (E : st_eqb a a = true) by (apply st_eqb_eq; reflexivity). rewrite E in H. discriminate.
+  - apply NoDup_filter. exact IH.
+Qed.
+
 Section AnalyzerSpec.
   Context {K : Type} {o : ops K} {SR : StarRing o}.
   Let Rr := sr_ring (o:=o).
@@ -781,10 +798,10 @@ Section AnalyzerSpec.
                          | None => 0%K
                          end).
 
-  Lemma an_row_error_some row outs exp v :
-    an_row_error o row outs exp = Some v -> v = (1 - exp_frac row outs exp)%K.
+  Lemma an_row_error_pinned_some row outs exp v :
+    an_row_error_pinned o row outs exp = Some v -> v = (1 - exp_frac row outs exp)%K.
   Proof.
-    unfold an_row_error, exp_frac.
+    unfold an_row_error_pinned, exp_frac.
     assert (G : forall e0 v,
       fold_left (fun acc x => match acc with
                               | None => None
@@ -807,6 +824,10 @@ Section AnalyzerSpec.
     apply G.
   Qed.
 
+  Lemma an_row_error_some row outs exp v :
+    an_row_error o row outs exp = Some v -> v = (1 - exp_frac row outs (st_dedupe exp))%K.
+  Proof. unfold an_row_error. apply an_row_error_pinned_some. Qed.
+
   Lemma opt_all_some {A} (l : list (option A)) r : opt_all l = Some r -> l = map Some r.
   Proof.
     revert r. induction l as [|[a|] l IH]; intros r H; simpl in H.
@@ -822,7 +843,7 @@ Section AnalyzerSpec.
   (* the list of per-input errors the code averages *)
   Fixpoint frac_list (inputs : list state) (probs : list (list K)) (outs : list state) (e : expected_t) : list K :=
     match inputs, probs with
-    | s :: inputs', row :: probs' => exp_frac row outs (exp_of e s) :: frac_list inputs' probs' outs e
+    | s :: inputs', row :: probs' => exp_frac row outs (st_dedupe (exp_of e s)) :: frac_list inputs' probs' outs e
     | _, _ => []
     end.
   Definition err_list (inputs : list state) (probs : list (list K)) (outs : list state) (e : expected_t) : list K :=
@@ -1265,11 +1286,11 @@ Section Metrics.
   Lemma keqb_spec a b : keqb rops a b = true <-> a = b.
   Proof. simpl. destruct (Req_EM_T a b); split; intros; try assumption; try reflexivity; try discriminate; contradiction. Qed.
 
-  Lemma an_row_error_none_iff row outs exp :
-    an_row_error rops row outs exp = None <->
+  Lemma an_row_error_pinned_none_iff row outs exp :
+    an_row_error_pinned rops row outs exp = None <->
     ksum rops row = 0 /\ exists x, In x exp /\ index_of outs x <> None.
   Proof.
-    unfold an_row_error. generalize (k1 rops) as e0.
+    unfold an_row_error_pinned. generalize (k1 rops) as e0.
     induction exp as [|x exp IH]; intros e0; cbn [fold_left].
     - split; [discriminate|]. intros [_ [x [[] _]]].
     - destruct (index_of outs x) as [loc|] eqn:Ei.
@@ -1334,7 +1355,7 @@ Section Metrics.
         destruct (an_row_error rops row (ar_outputs r) _) eqn:Er.
         * destruct (opt_all _) eqn:Eo' in Eo; [discriminate|].
           destruct (IH probs Eo') as [row' [Hin Hz]]. exists row'. split; [right; exact Hin|exact Hz].
-        * apply an_row_error_none_iff in Er. exists row. split; [left; reflexivity|exact (proj1 Er)].
+        * unfold an_row_error in Er. apply an_row_error_pinned_none_iff in Er. exists row. split; [left; reflexivity|exact (proj1 Er)].
   Qed.
 End Metrics.
 
@@ -2062,15 +2083,19 @@ Section Recorded.
       rewrite prob_vac. lra.
   Qed.
 
-  (* a state listed twice in expected[s] is subtracted twice: the row error is
-     1 - 2 p/total, not one minus the expected fraction p/total *)
-  Theorem error_rate_duplicate_refuted (x y : state) :
+  (* before fix 23dccaf a state listed twice in expected[s] was subtracted twice:
+     row error 1 - 2 p/total instead of one minus the expected fraction; the
+     repaired loop counts it once *)
+  Theorem error_rate_duplicate_pinned_refuted (x y : state) :
     st_eqb x y = false ->
-    an_row_error rops [1; 0] [x; y] [x; x] = Some (1 - 1 - 1) /\
+    an_row_error_pinned rops [1; 0] [x; y] [x; x] = Some (1 - 1 - 1) /\
+    an_row_error rops [1; 0] [x; y] [x; x] = Some (1 - 1) /\
     an_row_error rops [1; 0] [x; y] [x] = Some (1 - 1).
   Proof.
-    intros _. unfold an_row_error. simpl.
-    assert (Ex : st_eqb x x = true) by (apply st_eqb_eq; reflexivity). rewrite Ex. simpl.
-    destruct (Req_EM_T (1 + (0 + 0)) 0) as [E|_]; [lra|]. split; do 2 f_equal; field.
+    intros _.
+    assert (Ex : st_eqb x x = true) by (apply st_eqb_eq; reflexivity).
+    unfold an_row_error. simpl st_dedupe. rewrite Ex. simpl filter.
+    unfold an_row_error_pinned. simpl. rewrite Ex. simpl.
+    destruct (Req_EM_T (1 + (0 + 0)) 0) as [E|_]; [lra|]. repeat split; do 2 f_equal; field.
   Qed.
 End Recorded.
